@@ -1,14 +1,253 @@
 import Model.Util
 /-
-  Model/GAE.lean — (stub) executable model; see DESIGN.md.  Core Lean only.
+  Model/GAE.lean — executable model of the advantage estimation of `PPO.learn`
+  (agilerl/algorithms/ppo.py) and `IPPO._learn_individual` (agilerl/algorithms/ippo.py) and of the
+  way both flatten the rollout into training rows.  Core Lean only; exact `Rat` arithmetic.
+
+  * One *column* (`Col`) is one parallel environment of one agent: the code's tensors have shape
+    `(num_steps, num_envs)` (PPO) or `(num_steps, num_agents * num_envs)` (IPPO, column
+    `a * num_envs + e`) and every operation of the backward loop is element-wise in the column
+    dimension, so the loop is modelled per column and mapped over the columns (`gaeMatrix`).
+  * `gaeLoop` is the loop as coded: `for t in reversed(range(num_steps))` with the mutable
+    accumulator `last_gae_lambda`, `dones[t + 1]` / `next_done` as "next non terminal" and
+    `values[t + 1]` / `next_value` as bootstrap.
+  * `adv` is the recursive definition (the specification):
+      delta_t = r_t + γ V_{t+1} (1 - d_{t+1}) - V_t,   A_t = delta_t + γ λ (1 - d_{t+1}) A_{t+1},
+    with `d_T = next_done`, `V_T = critic(next_state)`, `A_T = 0`.
+  * Flattening: tables given by index functions, laid out by nested loops (`table2`, `table3`):
+    PPO `swapaxes(0,1).reshape` is env-major (`ppoFlatten`, row `e*T + t`);
+    IPPO states/actions are agent-major (`ippoObsFlatten`, row `a*(T*E) + t*E + e`);
+    IPPO log-probs/advantages/returns/values were time-major before the repair
+    (`ippoAdvFlatten0`, row `t*(A*E) + a*E + e`) and are
+    `reshape(T, A, -1).transpose(0, 1).reshape(-1)` of the `(T, A*E)` matrix after it
+    (`ippoAdvFlatten`).
 -/
+namespace GAE
+
+/-- a done flag as a number -/
+def ind (b : Bool) : Rat := if b then 1 else 0
+
+/-- one parallel environment of one agent -/
+structure Col where
+  r  : List Rat        -- rewards[t]
+  d  : List Bool       -- dones[t]: the flag recorded *with* step t (episode ended just before it)
+  v  : List Rat        -- values[t]
+  nv : Rat             -- critic(next_state)
+  nd : Bool            -- next_done
+deriving Repr
+
+/-- `num_steps = rewards.size(0)` -/
+def Col.T (c : Col) : Nat := c.r.length
+
+/-! ### the loop as coded -/
+
+/-- `1.0 - next_done` on the last step, `1.0 - dones[t + 1]` otherwise -/
+def nextNonTerminal (c : Col) (t : Nat) : Rat :=
+  if t = c.T - 1 then 1 - ind c.nd else 1 - ind (c.d.getD (t + 1) false)
+
+/-- `next_value` on the last step, `values[t + 1]` otherwise -/
+def nextValue (c : Col) (t : Nat) : Rat :=
+  if t = c.T - 1 then c.nv else c.v.getD (t + 1) 0
+
+structure LoopState where
+  last : Rat           -- last_gae_lambda
+  adv  : List Rat      -- advantages = zeros_like(rewards)
+deriving Repr
+
+/-- body of `for t in reversed(range(num_steps))` -/
+def loopBody (γ lam : Rat) (c : Col) (s : LoopState) (t : Nat) : LoopState :=
+  let nnt := nextNonTerminal c t
+  let nxt := nextValue c t
+  let delta := c.r.getD t 0 + γ * nxt * nnt - c.v.getD t 0
+  let a := delta + γ * lam * nnt * s.last
+  { last := a, adv := s.adv.set t a }          -- advantages[t] = last_gae_lambda = …
+
+def loopInit (c : Col) : LoopState := { last := 0, adv := List.replicate c.T 0 }
+
+/-- the advantages computed by the loop -/
+def gaeLoop (γ lam : Rat) (c : Col) : List Rat :=
+  ((List.range c.T).reverse.foldl (loopBody γ lam c) (loopInit c)).adv
+
+/-- `returns = advantages + values` -/
+def returnsOf (adv v : List Rat) : List Rat := List.zipWith (· + ·) adv v
+
+/-! ### the definition (specification) -/
+
+/-- `d_j` for `j ≤ T`, where `d_T = next_done` -/
+def doneAt (c : Col) (j : Nat) : Bool := if j = c.T then c.nd else c.d.getD j false
+
+/-- `V_j` for `j ≤ T`, where `V_T = critic(next_state)` -/
+def valAt (c : Col) (j : Nat) : Rat := if j = c.T then c.nv else c.v.getD j 0
+
+/-- `delta_t = r_t + γ V_{t+1} (1 - d_{t+1}) - V_t` -/
+def delta (γ : Rat) (c : Col) (t : Nat) : Rat :=
+  c.r.getD t 0 + γ * valAt c (t + 1) * (1 - ind (doneAt c (t + 1))) - c.v.getD t 0
+
+/-- `A_t` by recursion with `n` steps left: `A_t = delta_t + γ λ (1 - d_{t+1}) A_{t+1}`, `A_T = 0` -/
+def specAdv (γ lam : Rat) (c : Col) : Nat → Nat → Rat
+  | 0, _ => 0
+  | n + 1, t => delta γ c t + γ * lam * (1 - ind (doneAt c (t + 1))) * specAdv γ lam c n (t + 1)
+
+/-- the generalised advantage estimate of step `t` (0 for `t ≥ T`) -/
+def adv (γ lam : Rat) (c : Col) (t : Nat) : Rat := specAdv γ lam c (c.T - t) t
+
+/-- the return of step `t` -/
+def ret (γ lam : Rat) (c : Col) (t : Nat) : Rat := adv γ lam c t + c.v.getD t 0
+
+/-! ### a whole rollout: `T × C` matrices, row-major -/
+
+structure Rollout where
+  T  : Nat
+  C  : Nat
+  r  : List Rat      -- T*C
+  d  : List Bool     -- T*C
+  v  : List Rat      -- T*C
+  nv : List Rat      -- C
+  nd : List Bool     -- C
+
+def Rollout.col (ro : Rollout) (j : Nat) : Col :=
+  { r := (List.range ro.T).map (fun t => ro.r.getD (t * ro.C + j) 0),
+    d := (List.range ro.T).map (fun t => ro.d.getD (t * ro.C + j) false),
+    v := (List.range ro.T).map (fun t => ro.v.getD (t * ro.C + j) 0),
+    nv := ro.nv.getD j 0, nd := ro.nd.getD j false }
+
+/-- advantages of the whole rollout, row-major `(T, C)`, computed by the loop per column -/
+def gaeMatrix (γ lam : Rat) (ro : Rollout) : List Rat :=
+  let cols := (List.range ro.C).map (fun j => gaeLoop γ lam (ro.col j))
+  (List.range ro.T).flatMap (fun t => cols.map (fun a => a.getD t 0))
+
+/-! ### flattening into training rows -/
+
+/-- an `n × k` table laid out by `for i in range(n): for j in range(k)`; entry `i*k + j` is `g i j` -/
+def table2 {α} (n k : Nat) (g : Nat → Nat → α) : List α :=
+  (List.range n).flatMap (fun i => (List.range k).map (g i))
+
+/-- an `n × k × l` table; entry `i*(k*l) + j*l + m` is `g i j m` -/
+def table3 {α} (n k l : Nat) (g : Nat → Nat → Nat → α) : List α :=
+  (List.range n).flatMap (fun i => table2 k l (g i))
+
+/-- PPO `flatten_experiences`: `(T, E, …).swapaxes(0, 1).reshape(T*E, …)` of the array `m t e` -/
+def ppoFlatten {α} (T E : Nat) (m : Nat → Nat → α) : List α := table2 E T (fun e t => m t e)
+
+/-- the row of `(t, e)` after `ppoFlatten` -/
+def ppoFlat (T : Nat) (t e : Nat) : Nat := e * T + t
+
+/-- IPPO `concatenate_experiences_into_batches`: `cat` over the agents of `(T, E, …)` arrays,
+    then `reshape(-1, …)`; `m a t e` -/
+def ippoObsFlatten {α} (A T E : Nat) (m : Nat → Nat → Nat → α) : List α := table3 A T E m
+
+def ippoObsFlat (T E : Nat) (a t e : Nat) : Nat := a * (T * E) + t * E + e
+
+/-- IPPO before the repair: `vectorize_experiences_by_agent` stacks to `(T, A, E)`; `reshape(-1)` -/
+def ippoAdvFlatten0 {α} (A T E : Nat) (m : Nat → Nat → Nat → α) : List α :=
+  table3 T A E (fun t a e => m a t e)
+
+def ippoAdvFlat0 (A E : Nat) (a t e : Nat) : Nat := t * (A * E) + a * E + e
+
+/-- the `(T, A*E)` matrix the GAE loop works on: column `a*E + e` belongs to agent `a`, env `e` -/
+def ippoMatrix {α} (E : Nat) (m : Nat → Nat → Nat → α) (t c : Nat) : α := m (c / E) t (c % E)
+
+/-- IPPO after the repair: `M.reshape(T, A, -1).transpose(0, 1).reshape(-1)` for a `(T, C)` matrix -/
+def ippoAdvFlattenM {α} (A T C : Nat) (M : Nat → Nat → α) : List α :=
+  table3 A T (C / A) (fun a t e => M t (a * (C / A) + e))
+
+def ippoAdvFlatten {α} (A T E : Nat) (m : Nat → Nat → Nat → α) : List α :=
+  ippoAdvFlattenM A T (A * E) (ippoMatrix E m)
+
+/-- the row of `(a, t, e)` after the repaired flatten, computed from the matrix column `a*E + e` -/
+def ippoAdvFlat (A T E : Nat) (a t e : Nat) : Nat :=
+  let c := a * E + e
+  let E' := (A * E) / A
+  (c / E') * (T * E') + t * E' + c % E'
+
+/-- columns of the IPPO matrices: `vectorize_experiences_by_agent(…, dim=0)` (next_state, and
+    next_done after the repair) / `dim=1` on `(T, E)` arrays: column `a*E + e` -/
+def ippoCols {α} (A E : Nat) (f : Nat → Nat → α) : List α := table2 A E f
+
+/-- `next_done` before the repair: stacked with `dim=1` to `(E, A)`, then `reshape(1, -1)` -/
+def ippoNextDoneCols0 {α} (A E : Nat) (f : Nat → Nat → α) : List α := table2 E A (fun e a => f a e)
+
+end GAE
+
+/-! ### line protocol -/
 namespace GAE
 open Util
 
 structure IOState where
   dummy : Nat := 0
 
+def parseBool? (s : String) : Option Bool :=
+  if s = "0" then some false else if s = "1" then some true else none
+
+def parseBools? (ws : List String) : Option (List Bool) := allSome (ws.map parseBool?)
+
+def tag2 (t e : Nat) : String := toString t ++ "." ++ toString e
+def tag3 (a t e : Nat) : String := toString a ++ "." ++ toString t ++ "." ++ toString e
+
+/-- `run γ λ T C r[T*C] d[T*C] v[T*C] nv[C] nd[C]` → advantages `|` returns, row-major `(T, C)` -/
+def runOp (ws : List String) : String :=
+  match ws with
+  | g :: l :: t :: c :: rest =>
+    match parseRat? g, parseRat? l, parseNat? t, parseNat? c with
+    | some γ, some lam, some T, some C =>
+      if T = 0 ∨ C = 0 then
+        -- the real code cannot stack an empty rollout
+        if rest.length = 0 then "reject" else "bad-op"
+      else if rest.length ≠ 3 * (T * C) + 2 * C then "bad-op"
+      else
+        let n := T * C
+        match parseRats? (rest.take n), parseBools? ((rest.drop n).take n),
+              parseRats? ((rest.drop (2 * n)).take n), parseRats? ((rest.drop (3 * n)).take C),
+              parseBools? (rest.drop (3 * n + C)) with
+        | some r, some d, some v, some nv, some nd =>
+          let ro : Rollout := { T := T, C := C, r := r, d := d, v := v, nv := nv, nd := nd }
+          let a := gaeMatrix γ lam ro
+          showRats a ++ " | " ++ showRats (returnsOf a v)
+        | _, _, _, _, _ => "bad-op"
+    | _, _, _, _ => "bad-op"
+  | _ => "bad-op"
+
+def dims2 (ws : List String) : Option (Nat × Nat) :=
+  match ws with
+  | [a, b] => match parseNat? a, parseNat? b with
+    | some x, some y => if x = 0 ∨ y = 0 then none else some (x, y)
+    | _, _ => none
+  | _ => none
+
+def dims3 (ws : List String) : Option (Nat × Nat × Nat) :=
+  match ws with
+  | [a, b, c] => match parseNat? a, parseNat? b, parseNat? c with
+    | some x, some y, some z => if x = 0 ∨ y = 0 ∨ z = 0 then none else some (x, y, z)
+    | _, _, _ => none
+  | _ => none
+
 def step (s : IOState) : List String → IOState × String
+  | "run" :: ws => (s, runOp ws)
+  | "ppoflat" :: ws =>                       -- T E
+    match dims2 ws with
+    | some (T, E) => (s, " ".intercalate (ppoFlatten T E tag2))
+    | none => (s, "bad-op")
+  | "ippoobs" :: ws =>                       -- A T E
+    match dims3 ws with
+    | some (A, T, E) => (s, " ".intercalate (ippoObsFlatten A T E tag3))
+    | none => (s, "bad-op")
+  | "ippoadv" :: ws =>
+    match dims3 ws with
+    | some (A, T, E) => (s, " ".intercalate (ippoAdvFlatten A T E tag3))
+    | none => (s, "bad-op")
+  | "ippoadv0" :: ws =>
+    match dims3 ws with
+    | some (A, T, E) => (s, " ".intercalate (ippoAdvFlatten0 A T E tag3))
+    | none => (s, "bad-op")
+  | "ippocols" :: ws =>                      -- A E
+    match dims2 ws with
+    | some (A, E) => (s, " ".intercalate (ippoCols A E tag2))
+    | none => (s, "bad-op")
+  | "ippondcols0" :: ws =>
+    match dims2 ws with
+    | some (A, E) => (s, " ".intercalate (ippoNextDoneCols0 A E tag2))
+    | none => (s, "bad-op")
   | _ => (s, "bad-op")
 
 end GAE
+
